@@ -120,7 +120,7 @@ PROPS = {
                      "stdin families (empty, newline only, shorter, equal, longer than capacity, unterminated, CRLF, two lines): stdout, registers and memory after the "
                      "service vs the model"
                      " ALL 256 AH values for both interrupts in every run; input lines starting with multi-byte characters; stdout compared strictly."),
-    "C19": dict(modules=["Emu8086.Props.C19"], runs=[("l4", "diag", {"VERIF_CLI_REPEAT": "3"}), ("l4", "run", {"VERIF_CLI_REPEAT": "2"}), ("l3", "reuse"), ("l2", "arith+logic+shift+muldiv+mov+xfer+stack+jump+string+ctl+malformed"), ("l4", "fuzz", {"VERIF_CLI_REPEAT": "2"}), ("l4", "macros", {"VERIF_CLI_REPEAT": "2"})],
+    "C19": dict(modules=["Emu8086.Props.C19"], runs=[("l4", "diag", {"VERIF_CLI_REPEAT": "3"}), ("l4", "run", {"VERIF_CLI_REPEAT": "2"}), ("l3", "reuse"), ("l2", "arith+logic+shift+muldiv+mov+xfer+stack+jump+string+ctl+malformed"), ("l4", "fuzz", {"VERIF_CLI_REPEAT": "2"}), ("l4", "macros", {"VERIF_CLI_REPEAT": "2"}), ("l4", "ints", {"VERIF_CLI_REPEAT": "2"})],
                 gen=["Arch", "ILiterals", "PPGrammar", "Hygiene"],
                 rule="every L4 case is run 2-3 times in separate processes: outputs, traces and final states must be byte-identical (and equal to the deterministic "
                      "model), in particular programs with several simultaneous errors; L2: ONE Interpreter object processes all requests (valid and malformed lines "
